@@ -8,7 +8,6 @@ import (
 	"strconv"
 	"strings"
 	"testing"
-	"unicode/utf8"
 
 	cg "verif/harness/internal/confgen"
 	"verif/harness/internal/pand"
@@ -104,6 +103,11 @@ func scalarPositions(v any, path []string, out *[]scnPos) {
 		}
 	case nil:
 	default:
+		// Free-form data: only the direct values of `locals` and of a `variables` source are decoded (into
+		// interface{}); what is nested deeper inside them is copied verbatim by the decoder, hooks do not see it.
+		if (path[0] == "locals" && len(path) > 2) || (path[0] == "variable_sources" && len(path) > 4 && path[2] == "variables") {
+			return
+		}
 		*out = append(*out, scnPos{path, scnKind(path)})
 	}
 }
@@ -172,20 +176,20 @@ func genScnDoc(t *rapid.T) map[string]any {
 	var sources []any
 	for i, n := 0, rapid.IntRange(0, 3).Draw(t, "nsrc"); i < n; i++ {
 		s := map[string]any{"name": fmt.Sprintf("src%d", i)}
-		switch rapid.IntRange(0, 2).Draw(t, "srcType") {
-		case 0:
+		switch rapid.IntRange(0, 3).Draw(t, "srcType") {
+		case 0, 1:
 			s["type"] = "file/csv"
 			s["file"] = rapid.SampledFrom([]string{"users.csv", "/data/u.csv", "testdata/users.csv"}).Draw(t, "csvFile")
 			if rapid.Bool().Draw(t, "hasFields") {
 				s["fields"] = scnStrList(t, "fields")
 			}
-			if rapid.Bool().Draw(t, "hasIgnore") {
+			if rapid.IntRange(0, 2).Draw(t, "hasIgnore") > 0 {
 				s["ignore_first_line"] = rapid.Bool().Draw(t, "ignore")
 			}
 			if rapid.Bool().Draw(t, "hasDelim") {
 				s["delimiter"] = rapid.SampledFrom([]string{",", ";", "|", "\t"}).Draw(t, "delim")
 			}
-		case 1:
+		case 2:
 			s["type"] = "file/json"
 			s["file"] = rapid.SampledFrom([]string{"filter.json", "/data/f.json"}).Draw(t, "jsonFile")
 		default:
@@ -245,7 +249,7 @@ func genScnDoc(t *rapid.T) map[string]any {
 					}
 					if rapid.Bool().Draw(t, "aSize") {
 						a["size"] = map[string]any{"val": rapid.IntRange(0, 5000).Draw(t, "sizeVal"),
-							"op": rapid.SampledFrom([]string{">", "<", "eq", ">="}).Draw(t, "sizeOp")}
+							"op": rapid.SampledFrom([]string{">", "<", "eq", "=", "lt", "gt"}).Draw(t, "sizeOp")}
 					}
 					posts = append(posts, a)
 				}
@@ -316,8 +320,8 @@ func scnInvalidTexts(kind string, path []string) []string {
 	switch kind {
 	case skInt:
 		out := []string{"abc", "12x", "1.5", ""}
-		if path[len(path)-1] == "weight" {
-			out = append(out, "-1")
+		if last := path[len(path)-1]; last == "weight" || (last == "val" && path[len(path)-2] == "size") {
+			out = append(out, "-1") // weight: validate min=0; assert size: "size must be positive"
 		}
 		return out
 	case skBool:
@@ -336,13 +340,24 @@ func genScnPh(r *vf.Run) func(t *rapid.T) ScnPhCase {
 			byKind[p.kind] = append(byKind[p.kind], p)
 		}
 		var kinds []string
-		for _, k := range []string{skString, skString, skString, skInt, skInt, skBool, skPtrStr, skPtrStr, skAny} {
+		for _, k := range []string{skString, skString, skString, skString, skInt, skInt, skBool, skBool, skPtrStr, skPtrStr, skAny} {
 			if len(byKind[k]) > 0 {
 				kinds = append(kinds, k)
 			}
 		}
 		kind := rapid.SampledFrom(kinds).Draw(t, "kind")
-		cands := byKind[kind]
+		// the field first (a description has many names and steps, few assert sizes), then one of its positions
+		byField := map[string][]scnPos{}
+		var fields []string
+		for _, p := range byKind[kind] {
+			l := fieldLabel(p.path)
+			if len(byField[l]) == 0 {
+				fields = append(fields, l)
+			}
+			byField[l] = append(byField[l], p)
+		}
+		sort.Strings(fields)
+		cands := byField[rapid.SampledFrom(fields).Draw(t, "field")]
 		p := cands[rapid.IntRange(0, len(cands)-1).Draw(t, "pos")]
 		get, _, err := scnAt(doc, p.path)
 		if err != nil {
@@ -391,21 +406,33 @@ func genScnPh(r *vf.Run) func(t *rapid.T) ScnPhCase {
 			c.Decoy = rapid.SampledFrom(append(append(append([]string{}, cv...), cv...), af...)).Draw(t, "decoyName")
 		}
 		if c.Mode == pEmbedded {
-			c.From = rapid.IntRange(0, len(text)-1).Draw(t, "from")
-			c.To = rapid.IntRange(c.From, len(text)).Draw(t, "to")
-			if c.From == 0 && c.To == len(text) {
-				if len(text) > 1 {
-					c.To--
+			// variable part text[from:to], cut at character boundaries; at least one character stays outside
+			var cuts []int
+			for i := range text {
+				cuts = append(cuts, i)
+			}
+			cuts = append(cuts, len(text))
+			i := rapid.IntRange(0, len(cuts)-2).Draw(t, "from")
+			j := rapid.IntRange(i, len(cuts)-1).Draw(t, "to")
+			if i == 0 && j == len(cuts)-1 {
+				if j > 1 {
+					j--
 				} else {
-					c.To = 0
+					j = 0
 				}
 			}
-			// never split a multi-byte character (the parts must stay valid YAML text)
-			for c.To > c.From && c.To < len(text) && !utf8.RuneStart(text[c.To]) {
-				c.To--
-			}
-			for c.From > 0 && !utf8.RuneStart(text[c.From]) {
-				c.From--
+			c.From, c.To = cuts[i], cuts[j]
+			// the known finding also covers "placeholder + blanks only" (the value is trimmed before it is compared
+			// with the placeholder): keep a non-blank character outside
+			if (kind == skPtrStr || kind == skAny) && r.IsKnown(findingUnsupportedKind) &&
+				strings.TrimSpace(text[:c.From]+text[c.To:]) == "" {
+				r.Excluded(findingUnsupportedKind)
+				for k := 0; k < len(cuts)-1; k++ {
+					if strings.TrimSpace(text[cuts[k]:cuts[k+1]]) != "" {
+						c.From, c.To = cuts[k+1], len(text)
+						break
+					}
+				}
 			}
 		}
 		return c
